@@ -52,25 +52,25 @@ theorem conforms_of_sim {c : Cfg} {P : Prog} {k : Nat} {code : List LInstr} {ctx
 /-! ### Stage A: every construct except the seven loop builtins -/
 
 /-- Hypotheses, all visible:
-  * `Good false n` — well-formed tree (pair nodes exactly as elements of map literals), no loop builtin;
+  * `Good (fun _ => False) n` — well-formed tree (pair nodes exactly as elements of map literals), no loop builtin;
   * `AliasFree F`, `FloatsIn F n`, `PoolInv F pool` — the constant pool's de-duplication compares float
     constants with `==`; no two *different* float constants of the tree (or the initial pool) may be equal
     under it (in IEEE terms: `+0.0` and `-0.0` both occurring);
   * `FitsU16 code` — every operand fits 16 bits (the code's own limit, C05);
   * `EnvOK c cfg` — with `mapEnv` the environment really is a map. -/
 theorem compile_correct_stageA (n : Node) : ∀ (cfg : CompCfg) (pool pool' : Pool) (code : List LInstr) (F : Val → Prop),
-    compileNode cfg n pool = .ok (code, pool') → AliasFree F → PoolInv F pool → FloatsIn F n → Good false n →
+    compileNode cfg n pool = .ok (code, pool') → AliasFree F → PoolInv F pool → FloatsIn F n → Good (fun _ => False) n →
     ∀ (P : Prog) (pre post : List LInstr), P.code = (encodeAll ((pre ++ code ++ post).map (·.instr))).toArray →
       PoolExt pool' P.consts → FitsU16 code →
     ∀ (c : Cfg), EnvOK c cfg → ∀ (ctx : Ctx), Conforms c P (lsize pre) (lsize code) ctx n := by
   intro cfg pool pool' code F hc hF hinv hfl hg P pre post hP hK hfit c henv ctx
   exact conforms_of_sim (codeAt_of_layout hP hfit)
-    (compile_sim hc hF hinv hfl hg hK henv (fun h => by cases h) ctx)
+    (compile_sim hc hF hinv hfl hg hK henv (fun _ _ _ _ _ _ _ _ _ _ _ _ h => h.elim) ctx)
 
 /-- C05's balance statement is the shape of the success case: the stack found plus one value, the scope stack found. -/
 theorem compile_balanced_stageA (n : Node) (cfg : CompCfg) (pool pool' : Pool) (code : List LInstr) (F : Val → Prop)
     (hc : compileNode cfg n pool = .ok (code, pool')) (hF : AliasFree F) (hinv : PoolInv F pool) (hfl : FloatsIn F n)
-    (hg : Good false n) (P : Prog) (pre post : List LInstr)
+    (hg : Good (fun _ => False) n) (P : Prog) (pre post : List LInstr)
     (hP : P.code = (encodeAll ((pre ++ code ++ post).map (·.instr))).toArray) (hK : PoolExt pool' P.consts)
     (hfit : FitsU16 code) (c : Cfg) (henv : EnvOK c cfg) (ctx : Ctx) (s : VM) (hip : s.ip = lsize pre)
     (hlim : s.limit = c.budget) (hsc : ScopesOK ctx s.scopes) (v : Val) (σ' : SState)
@@ -84,9 +84,9 @@ theorem compile_balanced_stageA (n : Node) (cfg : CompCfg) (pool pool' : Pool) (
 /-- whole programs: for enough fuel `run` returns the Spec's result (value or error class), the Spec's
     memory/created/call-log, and on success an empty stack and no open scope; `cast` epilogue included -/
 theorem run_conforms_stageA (cfg : CompCfg) (n : Node) (cp : Compiled) (F : Val → Prop) (c : Cfg)
-    (hc : compileProgram cfg n = .ok cp) (hF : AliasFree F) (hfl : FloatsIn F n) (hg : Good false n)
+    (hc : compileProgram cfg n = .ok cp) (hF : AliasFree F) (hfl : FloatsIn F n) (hg : Good (fun _ => False) n)
     (hfit : FitsU16 cp.code) (henv : EnvOK c cfg) :
     ∃ N, ∀ fuel, N ≤ fuel → RunAgrees (run c (progOf cp) fuel) (Spec.run (specOf c) cfg.cast n) :=
-  run_conforms_gen hc hF hfl hg hfit henv (fun h => by cases h)
+  run_conforms_gen hc hF hfl hg hfit henv (fun _ _ _ _ _ _ _ _ _ _ _ _ h => h.elim)
 
 end ExprModel.C01
